@@ -78,7 +78,27 @@ def histories(draw, first=None):
             pos = draw(st.integers(0, len(ops)))
         if draw(st.integers(0, 2)) == 0:
             bad['set'] = 'SET-ONLY-THE-REJECTED-CALL-USES'     # the rejected call is the only one to touch this set
+        if nb == 0 and first == 'wrong-type-value:origin' and draw(st.booleans()):
+            pos = 0                 # the very first call of the history (see the arrangement of the origin sets below)
+            bad['set'] = 'S1'
+            bad['front'] = True
         spec['lfs'][0]['ops'] = ops = insert_op(ops, pos, bad)
+    ops = spec['lfs'][0]['ops']
+    if ops and ops[0].pop('front', False):
+        # the rejected call is the FIRST origin call of the file and names a set that a later valid origin uses, while the
+        # valid origin made first stays in the unnamed set: the defining origin must be the one of the valid history
+        valid = [j for j, op in enumerate(ops) if op['t'] == 'origin' and not op.get('bad')]
+        if valid:
+            if len(valid) == 1:
+                extra = copy.deepcopy(ops[valid[0]])
+                extra['name'] = 'SECOND-ORIGIN'
+                extra.pop('oref', None)
+                extra['attrs'] = {k: v for k, v in extra['attrs'].items() if k in ('file_set_number', 'creation_time')}
+                ops.append(extra)
+                valid.append(len(ops) - 1)
+            ops[valid[0]].pop('set', None)
+            ops[valid[1]]['set'] = 'S1'
+            spec['rejected_origin_first_in_named_set'] = True
     return {'kind': 'reject-history', 'spec': spec}
 
 
@@ -183,7 +203,8 @@ def failed_writes(draw, stratum=None):
     return case
 
 
-DAMAGES = ['missing-data', 'bad-ocs', 'wrong-dimension', 'bad-window', 'hc-signed', 'hc-nonuniform-index']
+DAMAGES = ['missing-data', 'bad-ocs', 'wrong-dimension', 'bad-window', 'hc-signed', 'hc-nonuniform-index',
+           'derived-dimension']
 
 
 # (object kind, attribute, value that the attribute's converter rejects)
@@ -247,6 +268,7 @@ class C20(Property):
         if case['kind'] == 'failed-write':
             return self.run_failed_write(case, ctx)
         spec = copy.deepcopy(case['spec'])
+        special = spec.pop('rejected_origin_first_in_named_set', False)
         ops = spec['lfs'][0]['ops']
         for op in ops:          # raw fields that JSON cannot express through the normal builder path
             if 'name_raw' in op:
@@ -254,7 +276,7 @@ class C20(Property):
             if 'data_raw' in op:
                 op['data_raw_list'] = op.pop('data_raw')
         bad_kinds = [op['bad'] for op in ops if op.get('bad')]
-        labels = ['rej:' + k for k in bad_kinds]
+        labels = ['rej:' + k for k in bad_kinds] + (['rejected-origin-first-in-named-set'] if special else [])
         nt = False
         for j, op in enumerate(ops):
             if op.get('bad') and any(o['t'] == op['t'] and o.get('name') == op.get('name') and not o.get('bad')
@@ -375,6 +397,21 @@ class C20(Property):
             net['lfs'][0]['ops'][j].pop('cast', None)
             if ops[j].get('cast'):
                 return Result([], labels, False, 'damage-not-applicable')
+        elif damage == 'derived-dimension':
+            # a calibration measurement whose value shapes disagree: the write fails AFTER a DIMENSION was derived from
+            # the first of them; the repair gives that attribute the shape of the others
+            shape2 = [[1, 2], [3, 4]] if sel % 2 else [[1.5, 2.5, 3.5]]
+            flat = [1, 3] if sel % 2 else [1.5]
+            which = ('maximum_deviation', 'standard_deviation') if sel % 3 else ('standard', 'plus_tolerance')
+            for sp, first_val in ((spec, shape2), (net, flat)):
+                sp['lfs'][0]['ops'].append({'t': 'calibration_measurement', 'name': 'CM-DAMAGED', 'attrs': {
+                    which[0]: {'v': first_val, 'r': 'kw'}, which[1]: {'v': flat, 'r': 'kw'}}})
+            try:
+                b = B.build(spec, ctx.scratch)
+            except B.BuildError:
+                return Result([], labels, False, 'invalid-base')
+            ops = spec['lfs'][0]['ops']
+            item = b.items[(0, len(ops) - 1)]
         elif damage == 'hc-nonuniform-index':
             return self.run_hc_nonuniform(case, ctx, labels)
         elif damage == 'rejected-assignment':
@@ -392,6 +429,8 @@ class C20(Property):
             w = (ops[j]['data']['shape'][1:] or [1])[0]
             item.dimension.value = [w]
             net['lfs'][0]['ops'][j]['attrs']['dimension'] = {'v': [w], 'r': 'later'}
+        if damage == 'derived-dimension':
+            getattr(item, which[0]).value = flat
         path = ctx.path()
         try:
             b.df.write(path, data=data, **kw)
